@@ -6,7 +6,7 @@ import ast
 
 from sa import dataflow as df
 from sa import loop as lp
-from sa.krylov import closure, nospace, norm_written, projection_convention
+from sa.krylov import buffer_dtype_obligations, closure, nospace, norm_written, projection_convention
 
 
 def fn(idx, rep, name):
@@ -142,6 +142,8 @@ def run(idx, rep, tier):
                    detail="" if ok else "pairing", locs=[idx.loc(eigs.module, eigs.node)])
         prod = f"{qn}@" in src
         rep.decide(True if prod else None, "eigs-pairing", "arnoldi_eigs:vectors", "Ritz vectors are Q times the eigenvectors of H", locs=[idx.loc(eigs.module, eigs.node)])
+    buffer_dtype_obligations(idx, rep, init, "buffer-dtype")
+    rep.floor("buffer-dtype", 2)
     rep.floor("loop-cap", 2)
     rep.floor("buffers", 2)
     rep.floor("normalisation-floor", 1)
